@@ -213,6 +213,8 @@ func runSched16(rep *core.Report, tier string) map[string]any {
 		{Name: "legacy(neg)", Nodes: trees["neg"], Legacy: true},
 		{Name: "pack(plain)", Nodes: trees["plain"]},
 		{Name: "pack(deref)", Nodes: trees["deref"], Ignore: true, Deref: true},
+		{Name: "pack(links,allow×3)", Nodes: trees["links"], Allow3: true},
+		{Name: "pack(plain+links,allow×3)", Nodes: append(append([]TNode{}, trees["links"]...), TNode{Path: "src/z/l", Kind: "link", Target: "../a"}), Allow3: true},
 	}
 	totalExec, totalPoints, scen, capped := 0, 0, 0, 0
 	labels := map[string]bool{}
@@ -251,7 +253,9 @@ func runSched16(rep *core.Report, tier string) map[string]any {
 		for _, s := range sets {
 			scens = append(scens, scenT{s, false})
 		}
-		sameOpt := func(a, b PackStep) bool { return a.Ignore == b.Ignore && a.Deref == b.Deref && !a.Legacy && !b.Legacy }
+		sameOpt := func(a, b PackStep) bool {
+			return a.Ignore == b.Ignore && a.Deref == b.Deref && a.Allow3 == b.Allow3 && !a.Legacy && !b.Legacy
+		}
 		for _, s := range sets {
 			ok := true
 			for _, o := range s[1:] {
@@ -349,7 +353,7 @@ func runRacePass(rep *core.Report, kind string, ops []PackStep, sc scenario) {
 		for a := range ops {
 			for b := a; b < len(ops); b++ {
 				args = append(args, map[string]any{"kind": "pack", "steps": []PackStep{ops[a], ops[b], ops[a]}, "iter": 30})
-				if ops[a].Ignore == ops[b].Ignore && ops[a].Deref == ops[b].Deref && !ops[a].Legacy && !ops[b].Legacy {
+				if ops[a].Ignore == ops[b].Ignore && ops[a].Deref == ops[b].Deref && ops[a].Allow3 == ops[b].Allow3 && !ops[a].Legacy && !ops[b].Legacy {
 					args = append(args, map[string]any{"kind": "pack", "share": true, "steps": []PackStep{ops[a], ops[b], ops[a]}, "iter": 30})
 				}
 			}
